@@ -163,8 +163,8 @@ def obligations(tier):
     n = 4 if T else 3
     for first in ("initial", "handshake", "one_rtt"):
         for second in ("initial", "handshake", "one_rtt", "ack", "ping", "crypto"):
-            obs.append(Ob("C13.builder.%s-%s" % (first, second), builder_ob(n, (first, second), sym_mds=T), shims, [P + "start_packet", P + "start_frame", P + "_end_packet", P + "_flush_current_datagram", P + "flush"], bounds="role, max_datagram_size " + ("symbolic in [1200,1500]" if T else "in {1200,1280,1500}") + ", optional flight and total byte budgets in [0,20000]; operations %s, %s and %d more out of start_packet(Initial/Handshake/1-RTT), ACK frame, PING frame, CRYPTO frame of any size that fits (quick tier: sizes 1/100/1100/1133)" % (first, second, n - 2), budget_s=2400 if T else 280, max_decisions=1500, stubs=["CryptoPair -> transparent"]))
+            obs.append(Ob("C13.builder.%s-%s" % (first, second), builder_ob(n, (first, second), sym_mds=T), shims, [P + "start_packet", P + "start_frame", P + "_end_packet", P + "_flush_current_datagram", P + "flush"], bounds="role, max_datagram_size " + ("symbolic in [1200,1500]" if T else "in {1200,1280,1500}") + ", optional flight and total byte budgets in [0,20000]; operations %s, %s and %d more out of start_packet(Initial/Handshake/1-RTT), ACK frame, PING frame, CRYPTO frame of any size that fits (quick tier: sizes 1/100/1100/1133)" % (first, second, n - 2), budget_s=2400 if T else 450, max_decisions=1500, stubs=["CryptoPair -> transparent"]))
     prep, run = amp_ob()
     Q = "aioquic.quic.connection.QuicConnection."
-    obs.append(Ob("C13.amplification.server", run, cm.conn_shims, [Q + "datagrams_to_send", Q + "_write_handshake", Q + "_write_application", P + "start_packet", P + "_flush_current_datagram"], bounds="server after the client's first flight, Handshake flight of 0/40/300/1100/2500/4000 bytes; bytes received in [1200,6000], bytes already sent anywhere up to the limit, congestion window in [2400,20000]; a transmit, the timer, another transmit", prepare=prep, budget_s=900 if T else 280, max_decisions=1500, stubs=["CryptoPair -> transparent", "tls.Context -> stub (the server flight is the real one produced before)"]))
+    obs.append(Ob("C13.amplification.server", run, cm.conn_shims, [Q + "datagrams_to_send", Q + "_write_handshake", Q + "_write_application", P + "start_packet", P + "_flush_current_datagram"], bounds="server after the client's first flight, Handshake flight of 0/40/300/1100/2500/4000 bytes; bytes received in [1200,6000], bytes already sent anywhere up to the limit, congestion window in [2400,20000]; a transmit, the timer, another transmit", prepare=prep, budget_s=900 if T else 450, max_decisions=1500, stubs=["CryptoPair -> transparent", "tls.Context -> stub (the server flight is the real one produced before)"]))
     return obs
